@@ -25,6 +25,10 @@ Ops ==
             a \in {[t |-> "name", n |-> "A"], [t |-> "num", x |-> N("d", 2)]}, b \in {[t |-> "name", n |-> "B"], [t |-> "name", n |-> "C"], [t |-> "num", x |-> N("i", 3)]}}
     \cup {[k |-> "ibinop", o |-> o, src |-> s, b |-> b] : o \in {"+", "-", "*"}, s \in {"A", "C"},
             b \in {[t |-> "name", n |-> "B"], [t |-> "num", x |-> N("i", 2)], [t |-> "num", x |-> N("d", 2)]}}
+    \cup {[k |-> "binop", o |-> o, a |-> [t |-> "name", n |-> "A"], b |-> b, dst |-> "D"] : o \in {"/", "%", "**", "mul", "max"},
+            b \in {[t |-> "num", x |-> N("i", 2)], [t |-> "num", x |-> N("d", -1)], [t |-> "num", x |-> N("i", 0)], [t |-> "name", n |-> "B"]}}
+    \cup {[k |-> "ibinop", o |-> o, src |-> "A", b |-> [t |-> "num", x |-> N("i", 2)]] : o \in {"/", "%"}}
+    \cup {[k |-> "abs", src |-> "A", dst |-> "D"]}
     \cup {[k |-> "unary", u |-> u, src |-> s, dst |-> "D"] : u \in {"neg", "trans", "copy"}, s \in Src}
     \cup {[k |-> "setsize", src |-> s, size |-> sz] : s \in {"A", "C"}, sz \in {<<1, 2>>, <<4, 1>>, <<2, 2>>, <<1, 4>>}}
 
